@@ -95,6 +95,48 @@ fn check_pair(ctx: &Ctx, r1: &Range, r2: &Range, evals: &AtomicU64, nontriv: &At
     }
 }
 
+/// A registration history of n ranges on one method and path: registration i is refused iff its
+/// range shares a version with an earlier (accepted) one; the history ends at the first refusal.
+/// On a fully accepted history every probe version is served by exactly the range containing it.
+fn check_history(ctx: &Ctx, hist: &[&Range], w: &[RV], evals: &AtomicU64, nontriv: &AtomicU64) {
+    evals.fetch_add(1, Ordering::Relaxed);
+    let specs: Vec<Spec> = hist.iter().enumerate().map(|(i, r)| spec(&format!("op{i}"), r, true)).collect();
+    let (api, outs) = build_table(&specs);
+    let want_first_refusal = (0..hist.len()).find(|&i| (0..i).any(|j| hist[j].share(hist[i])));
+    let got_first_refusal = outs.iter().position(|o| !o.accepted());
+    let case = || json!({"kind":"range_history","ranges": hist.iter().map(|r| r.to_json()).collect::<Vec<_>>()});
+    if want_first_refusal != got_first_refusal {
+        ctx.report(Violation {
+            sig: json!({"kind":"overlap_verdict_history","len": hist.len(), "refused_at": got_first_refusal, "expected_refused_at": want_first_refusal}),
+            case: case(),
+            expected: json!({"first_refused_registration": want_first_refusal}),
+            observed: json!({"registrations": outs.iter().map(|o| o.to_json()).collect::<Vec<_>>()}),
+        });
+        return;
+    }
+    let Some(api) = api else { return };
+    nontriv.fetch_add(1, Ordering::Relaxed);
+    let router = api.into_router();
+    for v in w {
+        let want: Vec<usize> = (0..hist.len()).filter(|&i| hist[i].contains(v)).collect();
+        let o = lookup(&router, &http::Method::GET, "/p", Some(&v.to_semver()));
+        let ok = match (&o, want.as_slice()) {
+            (Obs::Ok { op, .. }, [i]) => op == &format!("op{i}"),
+            (Obs::Err { status: 404, .. }, []) => true,
+            _ => false,
+        };
+        if !ok {
+            ctx.report(Violation {
+                sig: json!({"kind":"history_membership","len": hist.len()}),
+                case: case(),
+                expected: json!({"version": v.render(), "served_by_registration": want}),
+                observed: o.to_json(),
+            });
+            return;
+        }
+    }
+}
+
 fn header_request(name: &str, values: &[Vec<u8>]) -> Option<hyper::Request<dropshot::Body>> {
     let mut b = hyper::Request::builder().method("GET").uri("/p");
     for v in values {
@@ -188,6 +230,10 @@ fn main() {
                 "range_membership" => check_membership(ctx, &Range::from_json(&case["range"]), &w, &e, &s),
                 "range_pair" => check_pair(ctx, &Range::from_json(&case["first"]), &Range::from_json(&case["second"]), &e, &e),
                 "from_until_order" => {}
+                "range_history" => {
+                    let rs: Vec<Range> = case["ranges"].as_array().unwrap().iter().map(Range::from_json).collect();
+                    check_history(ctx, &rs.iter().collect::<Vec<_>>(), &w, &e, &e)
+                }
                 _ => {
                     let vals: Vec<Vec<u8>> = case["values_hex"].as_array().unwrap().iter().map(|v| unhex(v.as_str().unwrap())).collect();
                     check_header(ctx, &RV::parse(case["max"].as_str().unwrap()), "replay", &vals, true, &e, &s)
@@ -210,6 +256,40 @@ fn main() {
         check_pair(&ctx, &rs[i / rs.len()], &rs[i % rs.len()], &evals, &nontriv)
     });
     let n_pairs = evals.load(Ordering::Relaxed) - n_member;
+
+    // 2b. registration histories of three (thorough: also four) ranges over 5 of the version points
+    let w5: Vec<RV> = [0usize, 4, 7, 9, 11].iter().map(|&i| w[i].clone()).collect();
+    let r5 = ranges(&w5);
+    let before_h = evals.load(Ordering::Relaxed);
+    let n = r5.len();
+    par_for(n * n * n, ncpu(), ctx.seed, |i| {
+        let h = [&r5[i / (n * n)], &r5[(i / n) % n], &r5[i % n]];
+        // histories whose first pair already conflicts are the pair layer's
+        if !h[0].share(h[1]) {
+            check_history(&ctx, &h, &w, &evals, &nontriv);
+        }
+    });
+    if ctx.tier == Tier::Thorough {
+        let n = r5.len();
+        par_for(n * n * n * n, ncpu(), ctx.seed, |i| {
+            let h = [&r5[i / (n * n * n)], &r5[(i / (n * n)) % n], &r5[(i / n) % n], &r5[i % n]];
+            if !h[0].share(h[1]) && !h[0].share(h[2]) && !h[1].share(h[2]) {
+                check_history(&ctx, &h, &w, &evals, &nontriv);
+            }
+        });
+        let w4: Vec<RV> = [4usize, 7, 9, 11].iter().map(|&i| w[i].clone()).collect();
+        let r4 = ranges(&w4);
+        let n = r4.len();
+        par_for(n * n * n * n * n, ncpu(), ctx.seed, |i| {
+            let ix = [i / (n * n * n * n), (i / (n * n * n)) % n, (i / (n * n)) % n, (i / n) % n, i % n];
+            let h: Vec<&Range> = ix.iter().map(|&j| &r4[j]).collect();
+            let disjoint4 = (0..4).all(|a| (0..a).all(|b| !h[a].share(h[b])));
+            if disjoint4 {
+                check_history(&ctx, &h, &w, &evals, &nontriv);
+            }
+        });
+    }
+    let n_hist = evals.load(Ordering::Relaxed) - before_h;
 
     // from_until(a, b) with a > b must be refused, a <= b accepted
     let mut n_order = 0;
@@ -263,8 +343,8 @@ fn main() {
     let cov = json!({
         "evaluations": evals.load(Ordering::Relaxed),
         "distinct_nontrivial": nontriv.load(Ordering::Relaxed) + n_member / 2,
-        "rule": "ranges = all four kinds over the 12 version points W (semver.org precedence example + neighbours): 1+12+12+78 = 103. (1) every range x every probe in W: lookup_route on the real table {GET /p : r} and presence in openapi(_, w) vs RefRange; (2) every ordered pair of ranges: second registration refused iff RefRange::share; (3) from_until(a,b) for every (a,b) in W^2; (4) ClientSpecifiesVersionInHeader for every max in W x header states (absent | one value | same value on two lines) x values. distinct_nontrivial = ordered pairs that share a version + (range,probe) membership cases; all cases are distinct by construction.",
-        "membership_evaluations": n_member, "ordered_pairs": n_pairs, "from_until_order_cases": n_order, "header_states": n_header,
+        "rule": "ranges = all four kinds over the 12 version points W (semver.org precedence example + neighbours): 1+12+12+78 = 103. (1) every range x every probe in W: lookup_route on the real table {GET /p : r} and presence in openapi(_, w) vs RefRange; (2) every ordered pair of ranges: second registration refused iff RefRange::share; (2b) every ordered triple (thorough: and quadruple; and quintuple of the 19 ranges over 4 points) of the 26 ranges over 5 of the points whose earlier members are pairwise disjoint: registration i refused iff it shares a version with an earlier one, and on an accepted history every probe in W is served by exactly the containing range; (3) from_until(a,b) for every (a,b) in W^2; (4) ClientSpecifiesVersionInHeader for every max in W x header states (absent | one value | same value on two lines) x values. distinct_nontrivial = ordered pairs that share a version + (range,probe) membership cases; all cases are distinct by construction.",
+        "membership_evaluations": n_member, "ordered_pairs": n_pairs, "registration_histories_len3_len4": n_hist, "from_until_order_cases": n_order, "header_states": n_header,
         "ranges": rs.len(), "version_points": W, "live_slice": live,
         "exhaustive": true,
         "samples": samples.take(),
